@@ -1,5 +1,6 @@
 """C09 / C10 / C16 / C07(bound): text-half lemmas."""
 from vf import Lemma
+import os, vf
 import native
 R = lambda f: "%s/%s__c" % (f, f)
 ART = [r"^_fn\.pointer_primitives\.\d+$"]
@@ -8,8 +9,12 @@ ART = [r"^_fn\.pointer_primitives\.\d+$"]
 def lemmas():
     out = []
     out.append(Lemma(name="C09.filter.loop", src="text.c", entry="h_filter", props=["C09", "C16", "C10"], enforce=[R("filter_assembly_str_fsa")],
-                     loops_file="filter_loop.json", apply_loops=True, timeout=900, object_bits=10, ignore=ART, functions=["filter_assembly_str_fsa"],
-                     desc="line filter under a loop contract, input line of ANY length (object size is the only limit): reads stay inside the NUL-terminated input, writes stay inside filter_str[0..99], the buffer is left NUL-terminated, the loop terminates"))
+                     loops_file="filter_loop.json", apply_loops=True, timeout=1800, mem_gb=40, object_bits=10, ignore=ART, functions=["filter_assembly_str_fsa"],
+                     desc="line filter under a loop contract, input line of ANY length (object size is the only limit): reads stay inside the NUL-terminated input, writes stay inside filter_str[0..99], the buffer is left NUL-terminated, a byte above 0x7e in the scanned part is an error, the loop terminates"))
+    for tag, what in (("B", "the scanned part (up to the returned position) holds no LF, CR, NUL, ';' or '%'"), ("C", "the kept text is empty or starts with a letter-range character")):
+        out.append(Lemma(name="C09.filter.loop." + tag, src="text.c", entry="h_filter", props=["C09", "C16", "C06"], enforce=["filter_assembly_str_fsa/filter_assembly_str_fsa__c" + tag],
+                         loops_file="filter_loop_%s.json" % tag, apply_loops=True, timeout=1800, mem_gb=40, object_bits=10, ignore=ART, safety=False, functions=["filter_assembly_str_fsa"],
+                         desc="line filter under a loop contract (any line length), second/third postcondition group: " + what + " (memory-safety obligations are those of C09.filter.loop)"))
     leaf = [("get_operand_type", 300), ("get_reg_str", 600), ("find_add_mem", 600), ("find_mem_const", 600), ("get_index_reg", 900),
             ("mem_tok", 2400), ("imm_tok", 1800), ("str_to_reg", 300)]
     for f, to in leaf:
@@ -37,6 +42,18 @@ def lemmas():
                          unwindset="h_fmt_lookup.0:8,h_fmt_lookup.1:8,h_fmt_lookup.2:8", safety=False, object_bits=12, functions=["get_opd_format"],
                          ghosts=["g_a", "g_b", "g_c", "g_d"], tier="quick" if k in (0, 4) else "thorough",
                          desc="operand-format look-up, exhaustive over every operand-type string with first letter #%d: the format returned names exactly the string, every other string gives opd_error" % k))
+    # str_to_instr: the loop-contract (unbounded) form of this proof exhausts 40 GB during propositional reduction on
+    # every variant tried (DESIGN 4.6); the bounded form below is the deciding one and is labelled bounded
+    for n, tier in ((40, "quick"), (72, "thorough")):
+        out.append(Lemma(name="C06.str_to_instr.n%d" % n, src="line.c", entry="h_str_to_instr", props=["C06", "C09", "C10", "C16"], enforce=["str_to_instr/str_to_instr__e"],
+                         replace=["filter_assembly_str_fsa/filter_assembly_str_fsa__uBC", "line_to_instr/line_to_instr__c"], defs={"LINE_MAX_OBJ": str(n), "STI_FIXED": "1"},
+                         timeout=2400, mem_gb=40, ignore=ART, tier=tier, unwindset="strchr.0:101,strstr.0:101,strstr.1:101,str_to_instr.0:%d,str_to_instr_wrapped_for_contract_checking.0:%d" % (n + 2, n + 2),
+                         bounded="line of at most %d characters (object of %d symbolic bytes)" % (n, n + 1), functions=["str_to_instr"],
+                         desc="real str_to_instr against its contract (filter and line_to_instr by contract): the returned length ends exactly behind the first LF or CR or at the NUL and no line end lies inside it (arbitrary ghost position), only the record and *read_len are written (DFCC frame: no state survives a line), a filter error is propagated; all safety checks"))
+    out.append(Lemma(name="C09.line_to_instr", src="line.c", entry="h_line_to_instr", props=["C09", "C07", "C06"], enforce=["line_to_instr/line_to_instr__e"],
+                     replace=["instr_tok/instr_tok__r", R("get_opd_format"), R("str_to_instr_key"), R("str_to_reg")], timeout=1800, mem_gb=24, object_bits=12, ignore=ART,
+                     unwindset="strncpy.0:101", functions=["line_to_instr", "all_opd_str_to_reg", "check_registers", "encode_offset", "encode_imm", "encode_operands"],
+                     desc="real line_to_instr and encoder against its contract on ANY tokenizer output (tokenizer and look-ups by contract): writes only the record and the line buffer, success leaves a valid table row; all safety checks"))
     # ---- C10: recognition / rejection lemmas on the real look-up functions and scanners
     out.append(Lemma(name="C10.T1.str_to_reg", src="reject.c", entry="h_T1_str_to_reg", props=["C10", "C01", "C04"], timeout=1800, unwind=110,
                      unwindset="find_reg.0:40,strcmp.0:8,s3_find.0:110,s3_find.1:110", ghosts=["g_s"], functions=["str_to_reg", "find_reg"],
@@ -44,11 +61,35 @@ def lemmas():
     out.append(Lemma(name="C10.check_registers", src="reject.c", entry="h_check_registers", props=["C10"], timeout=300, functions=["check_registers"],
                      desc="a record with the error marker in a register or index of operands 1..3 is rejected, every other record passes (record fully symbolic)"))
     out.append(Lemma(name="C10.str_to_instr_key", src="reject.c", entry="h_str_to_instr_key", props=["C10", "C09"], timeout=1800,
-                     enforce=[R("str_to_instr_key")], replace=["strcmp/strcmp__any"], unwindset="str_to_instr_key.0:14,str_to_instr_key.1:330", functions=["str_to_instr_key"],
-                     desc="mnemonic look-up on ANY mnemonic string and any format (string comparison abstracted to an arbitrary result): the result is INSTR_ERROR or a table row that lists exactly the requested operand format; reads stay inside the table and the index tables"))
+                     enforce=["str_to_instr_key/str_to_instr_key__e"], replace=["strcmp/strcmp__rec"], loops_file="str_to_instr_key_loops.json", apply_loops=True, functions=["str_to_instr_key"],
+                     desc="mnemonic look-up on ANY mnemonic string and any format, unbounded by loop contracts (strcmp by its assumed contract): the result is INSTR_ERROR, or a table row that lists exactly the requested operand format and belongs to the group of a row whose mnemonic equals the text looked up (so an unknown mnemonic is always rejected); reads stay inside the table and the index tables"))
     out.append(Lemma(name="C10.mem_reject.n16", src="reject.c", entry="h_mem_reject", props=["C10"], timeout=1800, ghosts=["g_m", "g_k"], defs={"MEMN": "16"},
                      functions=["get_index_reg", "copy_index_reg", "check_sib_disp"], bounded="memory operand text of exactly 16 symbolic bytes (shorter operands through an embedded NUL)",
                      desc="memory-expression rejections on symbolic operand text: an unclosed bracket is rejected; scale*index is accepted only with a scale of 1, 2, 4 or 8"))
+    # ---- C10 (a): supported set == S4 (table lemma)
+    import egen
+    legal = egen.legal_forms()
+    names = sorted(legal)
+    gen = "#define S4_N %d\nstatic const char S4_MN[S4_N][15] = {%s};\nstatic const unsigned long S4_LEGAL[S4_N] = {%s};\n" % (
+        len(names), ", ".join('"%s"' % m for m in names), ", ".join("0x%xUL" % sum(1 << egen.TSTR.index(t) for t in legal[m] if t in egen.TSTR) for m in names))
+    def table_replay(l, failure):
+        """ghost (table row, type string) -> a real line; reproduced when the real library accepts it"""
+        try:
+            import re as _re
+            h, t = native.num(failure["ghosts"]["g_head"]), native.num(failure["ghosts"]["g_t"])
+            rows = _re.findall(r'^\s*\{(\{.\\0.\}|"[a-z0-9]+"),', open(os.path.join(vf.REPO, "src", "instructions.c")).read(), _re.M)
+            mn, ty = rows[h].strip('"'), egen.TSTR[t]
+        except Exception as e:
+            return {"reproduced": False, "note": "no ghost values (%r)" % e}
+        opd = {"r": "rcx", "v": "xmm1", "y": "ymm1", "m": "[rax]", "i": "1"}
+        line = mn + (" " + ", ".join(opd[c] for c in ty) if ty else "")
+        rc, out = native.run_drv("create 64\nasm %s\ndump\n" % line)
+        return {"reproduced": rc is not None and "asm rc=0" in (out or ""), "cmd": "printf 'create 64\\nasm %s\\ndump\\n' | %s" % (line, native.drv()[1]),
+                "output": (out or "")[-600:], "fail_regex": "asm rc=0", "text": {"line": line}}
+    out.append(Lemma(name="C10.table_forms", src="lookup2.c", entry="h_table_forms", props=["C10"], gen_h=gen, timeout=1800, safety=False, unwind=330,
+                     unwindset="s4_find.1:%d,s4_find.0:16,h_table_forms.0:34,h_table_forms.1:3,h_table_forms.2:20,h_table_forms.3:330" % (len(names) + 2),
+                     ghosts=["g_row", "g_head", "g_t"], replay=table_replay, functions=[],
+                     desc="supported set as a lemma over the constant tables: every operand format offered by a row that the look-up can return for a mnemonic is an operand-kind combination S4 lists for that mnemonic (%d mnemonics, 33 type strings); concrete evaluation" % len(names)))
     # ---- C16: spelling invariance of the real filter (2-run lemmas, bounded line length)
     SPB = lambda n: "line of %d symbolic characters (no terminator inside) plus the rewritten copy" % n
     for e, what in (("case", "changing the letter case of any subset of the characters does not change the filtered line"),
